@@ -114,8 +114,17 @@ def run_history(case):
                 desc = C.apply_edit(desc, op)
                 put(desc)
                 steps.append(["set", C.sx_project(desc), C.sx_cfg(desc["cfg"])])
-            steps.append(["run", sched_of(desc), False, None])
-            obs.append(observe(w.run(extra=extra)))
+            forced_now = op.endswith("!")        # this one run is forced: --force on the CLI, "force": true for the build
+            if forced_now and case["entry"] == "build":
+                tmp = copy.deepcopy(desc)
+                tmp["cfg"]["force"] = True
+                put(tmp)
+                steps.append(["set", C.sx_project(tmp), C.sx_cfg(tmp["cfg"])])
+            steps.append(["run", sched_of(desc), forced_now and case["entry"] == "cli", None])
+            obs.append(observe(w.run(force=(forced_now and case["entry"] == "cli"), extra=extra)))
+            if forced_now and case["entry"] == "build":
+                put(desc)
+                steps.append(["set", C.sx_project(desc), C.sx_cfg(desc["cfg"])])
     base = case_base(case)
     return sx([C.sx_project(base), C.sx_cfg(base["cfg"]), steps]), obs, desc
 
@@ -240,7 +249,7 @@ def regressions(pid):
 # one representative per edit class of the property text (+ the unhashed / noise / deletion classes): the alphabet of
 # the exhaustive length-2 enumeration of the quick tier; the full alphabet (several representatives per class) is used
 # at length 1, in the sampled pairs and, exhaustively, in the thorough tier
-ALPHA = CORE + ["cmd_swap", "cmd_move", "unused_struct", "event_add", "visualize", "noise", "map_target", "include_private", "cmd_rename_all", "delete:.typecache",
+ALPHA = CORE + ["param_swap", "field_swap", "channel_swap", "cmd_swap", "cmd_move", "unused_struct", "event_add", "visualize", "noise", "map_target", "include_private", "cmd_rename_all", "delete:.typecache",
                 "delete:commands.ts"]
 
 
@@ -339,6 +348,39 @@ def route_histories(tier, rng):
     return cases
 
 
+def force_histories(tier, rng):
+    """>= 3 runs mixing forced runs ("force": true in the configuration file: `e+force`; one run forced by --force /
+    by the file: `e!`) with unforced ones and reverting to an earlier state (every edit is a toggle: `e ... e`)"""
+    edits = ["field_add", "param_type", "cmd_add", "serde_rename", "event_name", "mode", "type_mapping", "param_swap"]
+    cases = []
+    for entry in ("cli", "build"):
+        for conf in ("cfile", "tauri"):
+            for e in edits:
+                for seq in ([e + "!", e], [e + "+force", e + "+force"], [e, e + "!", e], [e + "!", e + "!", e],
+                            ["force", e, e + "+force"], [e + "+force", "force", e], [e + "!", "noise", e],
+                            [e + "+force", e + "+force", e]):
+                    cases.append({"entry": entry, "base": "none", "conf": conf, "ops": seq})
+        for _ in range(40 if tier == "quick" else 400):
+            a, b = rng.sample(edits, 2)
+            pool = [a, b, a + "!", b + "!", a + "+force", "force", "delete:types.ts", "variant_swap", "event_swap"]
+            cases.append({"entry": entry, "base": rng.choice(["none", "zod"]), "conf": rng.choice(["cfile", "tauri"]),
+                          "ops": [rng.choice(pool) for _ in range(rng.randint(3, 5))]})
+    return cases
+
+
+def order_histories():
+    """order-only edits of every ordered collection that reaches the output, each on its own and after one another"""
+    order = ["param_swap", "field_swap", "variant_swap", "channel_swap", "event_swap", "struct_swap", "cmd_swap"]
+    cases = []
+    for entry in ("cli", "build"):
+        for mode in ("none", "zod"):
+            for e in order:
+                cases.append({"entry": entry, "base": mode, "ops": [e]})
+                cases.append({"entry": entry, "base": mode, "ops": ["event_add", e]})
+                cases.append({"entry": entry, "base": mode, "routes": True, "ops": [e]})
+    return cases
+
+
 LOSABLE = ["types.ts", "commands.ts", "events.ts", "index.ts", "dependency-graph.txt", "dependency-graph.dot"]
 
 
@@ -393,7 +435,7 @@ def run(rep):
     outs, oo = eval_histories(witnesses() + regressions("C08"))
     rep.add("corpus", outs)
     rep.add("partition", eval_partition(partition_cases()))
-    cases = config_histories() + route_histories(rep.tier, rng) + loss_histories() + event_histories(rep.tier, rng) + history_cases(rep.tier, rng)
+    cases = config_histories() + route_histories(rep.tier, rng) + loss_histories() + force_histories(rep.tier, rng) + order_histories() + event_histories(rep.tier, rng) + history_cases(rep.tier, rng)
     rep.extra["history_distribution"] = distribution(cases)
     total_oo = oo
     for i in range(0, len(cases), 400):
